@@ -147,14 +147,36 @@ def run(ctx, res):
         for (toks, runs, kind, info), a, b in zip(cases, m1, i1):
             mt, _, mlog = a.partition(" calls=")
             if mt != b:
-                bad_oracle = False
-                if kind in ("dollar", "bq", "bqtok") and b not in ("PANIC", "CRASH", "NOT-RUN"):
-                    words = [C.dec(y) for x, y in re.findall(r'\("([^"]*)","([^"]*)"\)', b)]
-                    bad_oracle = len(words) < 2 or words[1] != info[0] + strip_nl(runs[0][2]) + info[1]
-                violate(kind="oracle" if bad_oracle else "correspondence", layer="L1", input=repr(toks), model=mt, impl=b,
-                        output=runs[0][2] if runs else None, failing_input=bad_oracle,
+                # word by word: the property's expectation, or (inside a recorded class) the model's recorded behaviour
+                iw = [C.dec(y) for x, y in re.findall(r'\("([^"]*)","([^"]*)"\)', b)]
+                mw = [C.dec(y) for x, y in re.findall(r'\("([^"]*)","([^"]*)"\)', mt)]
+                expw = None
+                if kind in ("dollar", "bq", "bqtok"):
+                    expw = {1: (info[0] + strip_nl(runs[0][2]) + info[1], runs[0][2])}
+                elif kind == "twotok":
+                    expw = {1: (strip_nl(runs[0][2]), runs[0][2]), 3: ("x" + strip_nl(runs[1][2]) + "y", runs[1][2])}
+                elif kind == "merge":   # recorded class greedy_merge: one inner line; its output spliced as text
+                    expw = {1: (rust_trim(runs[0][2]), runs[0][2])}
+                verdict = "correspondence"
+                if expw is not None and len(iw) == len(mw) == len(toks):
+                    verdict = "accepted"
+                    for k in range(len(toks)):
+                        if iw[k] == mw[k]:
+                            continue
+                        ew, o = expw.get(k, (toks[k][1], ""))
+                        in_class = ("$" in rust_trim(o) and "output_is_template" in known) or \
+                                   (rust_trim(o) != strip_nl(o) and "whitespace_trimmed" in known)
+                        if iw[k] == ew and in_class:
+                            continue     # inside a recorded class the implementation now meets the oracle (DESIGN 4.5)
+                        verdict = "oracle" if iw[k] != ew else "correspondence"
+                        break
+                if verdict == "accepted":
+                    res.extra["known_class_cases_meeting_the_oracle"] = res.extra.get("known_class_cases_meeting_the_oracle", 0) + 1
+                    continue
+                violate(kind=verdict, layer="L1", input=repr(toks), model=mt, impl=b,
+                        output=runs[0][2] if runs else None, failing_input=(verdict == "oracle"),
                         note="do_command_substitution of the implementation differs from the model"
-                             + (" and from head ++ output-minus-trailing-newlines ++ tail" if bad_oracle else ""))
+                             + (" and from head ++ output-minus-trailing-newlines ++ tail" if verdict == "oracle" else ""))
                 continue
             ncalls_model = mlog.count('","') + 1 if mlog not in ("[]", "") else 0
             ncalls_impl = sum(os.path.getsize(cnt) for _, cnt, _ in runs if cnt and os.path.exists(cnt))
